@@ -347,7 +347,9 @@ def expandElementalMassFracsToNuclides(
         expandedNucs = expandElementalNuclideMassFracs(
             element, massFrac, isotopicSubset
         )
-        massFracs.update(expandedNucs)
+        # the input may name isotopes of this element on their own as well: add to them
+        for nucName, expandedFrac in expandedNucs.items():
+            massFracs[nucName] = massFracs.get(nucName, 0.0) + expandedFrac
 
         total = sum(expandedNucs.values())
         if massFrac > 0.0 and abs(total - massFrac) / massFrac > 1e-6:
